@@ -111,8 +111,21 @@ def check(prop, modname, tier, seed):
         la = mod.level_a(tier)
         for (n, why) in la['failed']:
             path = common.replay_path(prop, n)
+            wit = None
+            if hasattr(mod, 'level_a_search'):
+                # a failed obligation is not yet a failing input: search the real code for one in a small scope
+                try:
+                    wit = mod.level_a_search(n)
+                except Exception:
+                    wit = None
+            if wit is not None:
+                still, text = mod.replay(wit)
+                common.write_json(path, {'property': prop, 'obligation': n, 'solver': why, 'replay_kind': 'bounded', 'module': modname,
+                                         'witness': wit, 'replayed': text, 'how_to_replay': './check --replay %s' % path})
+                rep.violation(n, path, bool(still))
+                continue
             common.write_json(path, {'property': prop, 'obligation': n, 'solver': why,
-                                     'note': 'Level-A obligation (pyvc) of this property failed; no failing input was searched for'})
+                                     'note': 'Level-A obligation (pyvc) of this property failed; no failing input was found'})
             rep.violation(n, path, False)
         for u in la['unsupported']:
             # the bounded part decides this property: a function that left the subset pyvc translates only loses
